@@ -198,7 +198,9 @@ def run_case(ctx, case):
     ctx.check("nonnegative", len(neg) == 0, {}, {"faces": neg.ravel().tolist()[:5], "mesh": d})
     # default-rule accuracy per class
     chk = eligible & np.isfinite(bnd)
-    bad = np.argwhere(chk & (rel0 > bnd))
+    # rounding floor: areas are sums of terms computed from unit vectors - about 10 ulp of the unit sphere, absolute (matters below ~1e-9 sr)
+    floor = 1e-12 + 2e-15 / ex
+    bad = np.argwhere(chk & (rel0 > np.maximum(bnd, floor)))
     ctx.clause_evals["default_accuracy"] = ctx.clause_evals.get("default_accuracy", 0) + int(chk.sum()) - 1
     cls = lambda x: "<=10" if x <= 10 else "<=30" if x <= 30 else "<=65" if x <= 65 else ">65"
     ctx.check("default_accuracy", len(bad) == 0, {"class": cls(diam[bad[0][0]]) if len(bad) else ""},
@@ -237,7 +239,7 @@ def run_case(ctx, case):
             rhi = np.abs(by_rule[(fam, hi)] - ex) / ex
             rdf = np.abs(by_rule[(fam, dflt)] - ex) / ex
             lim = np.where(diam <= 30, 1e-9, np.where(diam <= 65, 1e-6, np.inf))
-            badc = np.argwhere(eligible & ((rhi > np.maximum(rdf, 1e-12 + 2e-15 / ex)) | (rhi > lim)))  # rounding floor: ~10 ulp of the unit sphere, absolute
+            badc = np.argwhere(eligible & ((rhi > np.maximum(rdf, 1e-12 + 2e-15 / ex)) | (rhi > np.maximum(lim, 1e-12 + 2e-15 / ex))))  # rounding floor: ~10 ulp of the unit sphere, absolute
             ctx.clause_evals["convergence"] = ctx.clause_evals.get("convergence", 0) + int(eligible.sum()) - 1
             ctx.check("convergence", len(badc) == 0, {"family": fam},
                       None if not len(badc) else {"face": int(badc[0][0]), "diam_deg": float(diam[badc[0][0]]), "err_hi": float(rhi[badc[0][0]]), "err_default": float(rdf[badc[0][0]]), "mesh": d})
@@ -277,6 +279,7 @@ def run_case(ctx, case):
         else:
             lim = tol_factor * bnd[order_map]
         relc = np.abs(a_tw - base) / base
+        lim = np.maximum(lim, 2 * (1e-12 + 2e-15 / ex[order_map]))  # two roundings
         badt = np.argwhere(e & (relc > lim))
         ctx.clause_evals["invariance"] = ctx.clause_evals.get("invariance", 0) + int((e & np.isfinite(lim)).sum()) - 1
         ctx.check("invariance", len(badt) == 0, {"twin": name, "order": "highest" if hi else "default"},
@@ -350,7 +353,7 @@ def run_case(ctx, case):
             for f_i, kind, cnt in cut_src:
                 s = float(np.sum(ca[pos:pos + cnt]))
                 pos += cnt
-                lim = 2.0 * bnd[f_i]
+                lim = max(2.0 * bnd[f_i], 3 * (1e-12 + 2e-15 / ex[f_i]))  # (rounding floor of three areas)
                 if np.isfinite(lim):
                     rel = abs(s - a0[f_i]) / a0[f_i]
                     ctx.check("additivity", rel <= lim, {"cut": kind}, {"face": f_i, "rel": rel, "limit": float(lim), "diam_deg": float(diam[f_i]), "mesh": d})
